@@ -2,7 +2,7 @@ SPECIFICATION Spec
 INVARIANT Inv
 CHECK_DEADLOCK FALSE
 CONSTANTS
-  MaxLen = 6
+  MaxLen = 5
   Prefix <- PDirective
   Suffix <- PNone
   Alphabet = {"on", "|", "FIELD", "OBJECT", "repeatable", "(", ")", "n1", ":", "str", "@"}
